@@ -816,8 +816,9 @@ struct RevokeCase {
     passcode: u32,
     /// per attempt: true = right passcode
     attempts: Vec<bool>,
-    /// for attempts with a wrong passcode: the confirmation cA in Pake3 is additionally cut to
-    /// that many bytes on the wire (32 = untouched); a malformed proof is a failed proof too
+    /// per attempt: the confirmation cA in Pake3 is cut / extended to that many bytes on the
+    /// wire (32 = untouched); a malformed proof is a failed proof too. Only an initiator with the
+    /// right passcode gets as far as sending Pake3, so this matters for those attempts
     #[serde(default)]
     ca_len: Vec<u8>,
     seed: u32,
@@ -826,7 +827,10 @@ struct RevokeCase {
 fn revoke_strategy() -> impl Strategy<Value = RevokeCase> {
     (
         passcode_strategy(),
-        prop::collection::vec(prop::bool::weighted(0.08), 18..26),
+        prop_oneof![
+            3 => prop::collection::vec(prop::bool::weighted(0.08), 18..26),
+            1 => prop::collection::vec(prop::bool::weighted(0.6), 18..26),
+        ],
         prop_oneof![
             2 => Just(vec![]),
             1 => prop::collection::vec(prop_oneof![2 => Just(32u8), 1 => Just(31u8), 1 => 0u8..32, 1 => Just(33u8)], 26),
@@ -906,7 +910,12 @@ fn check_revoke(case: &RevokeCase) -> Case {
             }
             *result.borrow_mut() = None;
             let pc = if *right { case.passcode } else { case.passcode ^ (1 << (k % 20)) };
-            cut_ca.set(if *right { None } else { case.ca_len.get(k).copied().filter(|l| *l != 32) });
+            // A malformed confirmation (cA cut or extended on the wire) is a failed proof whatever
+            // the passcode - and only an initiator with the right passcode gets as far as sending
+            // Pake3 at all (a wrong one stops at cB), so the rewrite applies to those.
+            let mangled = case.ca_len.get(k).copied().filter(|l| *l != 32);
+            cut_ca.set(mangled);
+            let right = &(*right && mangled.is_none());
             let (m, c, res, le) = (&init, &ci, &result, &last_err);
             let t = ex.spawn("attempt", async move {
                 let r = async {
@@ -958,7 +967,7 @@ fn check_revoke(case: &RevokeCase) -> Case {
                 if ok {
                     verdict = Some(Case::fail(
                         "O1:session-with-wrong-passcode",
-                        format!("attempt {k} with a wrong passcode succeeded"),
+                        format!("attempt {k} with a wrong passcode or a malformed confirmation (cA length {mangled:?}) succeeded"),
                     ));
                     break;
                 }
